@@ -11,11 +11,37 @@ package hotstuffpb
 // Byte fields are bounded by the transport's message size limit (far below 2^28).
 //@ pred wireheap() = (forall s *QuorumSignature :: s != nil ==> wiresig(s)) && (forall a *BLS12AggregateSignature :: len(a.Participants) <= 268435456)
 
-//@ func QuorumSignatureFromProto property C10
+//@ func QuorumSignatureFromProto property C10,C12
 //@   mode bytebv
 //@   requires wireheap()
 //@   ensures [no-typed-nil] istype(result, *crypto.BLS12AggregateSignature) ==> as(result, *crypto.BLS12AggregateSignature) != nil
+//@   ensures [ecdsa] sig != nil && istype(sig.Sig, *QuorumSignature_ECDSASigs) && as(sig.Sig, *QuorumSignature_ECDSASigs).ECDSASigs != nil ==> istype(result, crypto.Multi[*crypto.ECDSASignature]) && len(as(result, crypto.Multi[*crypto.ECDSASignature])) == len(as(sig.Sig, *QuorumSignature_ECDSASigs).ECDSASigs.Sigs) && (forall i int :: {as(result, crypto.Multi[*crypto.ECDSASignature])[i]} 0 <= i && i < len(as(sig.Sig, *QuorumSignature_ECDSASigs).ECDSASigs.Sigs) ==> as(result, crypto.Multi[*crypto.ECDSASignature])[i] != nil && as(result, crypto.Multi[*crypto.ECDSASignature])[i].signer == as(sig.Sig, *QuorumSignature_ECDSASigs).ECDSASigs.Sigs[i].Signer && sameslice(as(result, crypto.Multi[*crypto.ECDSASignature])[i].sig, as(sig.Sig, *QuorumSignature_ECDSASigs).ECDSASigs.Sigs[i].Sig))
+//@   ensures [eddsa] sig != nil && istype(sig.Sig, *QuorumSignature_EDDSASigs) && as(sig.Sig, *QuorumSignature_EDDSASigs).EDDSASigs != nil ==> istype(result, crypto.Multi[*crypto.EDDSASignature]) && len(as(result, crypto.Multi[*crypto.EDDSASignature])) == len(as(sig.Sig, *QuorumSignature_EDDSASigs).EDDSASigs.Sigs) && (forall i int :: {as(result, crypto.Multi[*crypto.EDDSASignature])[i]} 0 <= i && i < len(as(sig.Sig, *QuorumSignature_EDDSASigs).EDDSASigs.Sigs) ==> as(result, crypto.Multi[*crypto.EDDSASignature])[i] != nil && as(result, crypto.Multi[*crypto.EDDSASignature])[i].signer == as(sig.Sig, *QuorumSignature_EDDSASigs).EDDSASigs.Sigs[i].Signer && sameslice(as(result, crypto.Multi[*crypto.EDDSASignature])[i].sig, as(sig.Sig, *QuorumSignature_EDDSASigs).EDDSASigs.Sigs[i].Sig))
+//@   loop 1 invariant [restored] forall j int :: {sigs[j]} 0 <= j && j <= rangeindex ==> sigs[j] != nil && allocated(sigs[j]) && sigs[j].signer == signature.Sigs[j].Signer && sameslice(sigs[j].sig, signature.Sigs[j].Sig)
+//@   loop 1 invariant [fresh] fresh(sigs) && len(sigs) == len(signature.Sigs)
+//@   loop 0 invariant [restored] forall j int :: {sigs[j]} 0 <= j && j <= rangeindex ==> sigs[j] != nil && allocated(sigs[j]) && sigs[j].signer == signature.Sigs[j].Signer && sameslice(sigs[j].sig, signature.Sigs[j].Sig)
+//@   loop 0 invariant [fresh] fresh(sigs) && len(sigs) == len(signature.Sigs)
 //@   modifies alloc
+// Encoding of a signature: the wire form lists, in the signature's own order, each signer id
+// and that signer's signature bytes (ECDSA, EdDSA).
+//@ func QuorumSignatureToProto property C12
+//@   requires istype(sig, crypto.Multi[*crypto.ECDSASignature]) ==> crypto.mnonnil(as(sig, crypto.Multi[*crypto.ECDSASignature]))
+//@   requires istype(sig, crypto.Multi[*crypto.EDDSASignature]) ==> crypto.mnonnilEd(as(sig, crypto.Multi[*crypto.EDDSASignature]))
+//@   requires istype(sig, *crypto.BLS12AggregateSignature) ==> as(sig, *crypto.BLS12AggregateSignature) != nil
+//@   uses crypto.multi_ecdsa_refines
+//@   uses crypto.multi_eddsa_refines
+//@   ensures [fresh] result != nil && fresh(result)
+//@   ensures [ecdsa] istype(sig, crypto.Multi[*crypto.ECDSASignature]) ==> istype(result.Sig, *QuorumSignature_ECDSASigs) && as(result.Sig, *QuorumSignature_ECDSASigs) != nil && as(result.Sig, *QuorumSignature_ECDSASigs).ECDSASigs != nil && len(as(result.Sig, *QuorumSignature_ECDSASigs).ECDSASigs.Sigs) == len(as(sig, crypto.Multi[*crypto.ECDSASignature])) && (forall i int :: {as(result.Sig, *QuorumSignature_ECDSASigs).ECDSASigs.Sigs[i]} 0 <= i && i < len(as(sig, crypto.Multi[*crypto.ECDSASignature])) ==> as(result.Sig, *QuorumSignature_ECDSASigs).ECDSASigs.Sigs[i] != nil && as(result.Sig, *QuorumSignature_ECDSASigs).ECDSASigs.Sigs[i].Signer == as(sig, crypto.Multi[*crypto.ECDSASignature])[i].signer && sameslice(as(result.Sig, *QuorumSignature_ECDSASigs).ECDSASigs.Sigs[i].Sig, as(sig, crypto.Multi[*crypto.ECDSASignature])[i].sig))
+//@   ensures [eddsa] istype(sig, crypto.Multi[*crypto.EDDSASignature]) ==> istype(result.Sig, *QuorumSignature_EDDSASigs) && as(result.Sig, *QuorumSignature_EDDSASigs) != nil && as(result.Sig, *QuorumSignature_EDDSASigs).EDDSASigs != nil && len(as(result.Sig, *QuorumSignature_EDDSASigs).EDDSASigs.Sigs) == len(as(sig, crypto.Multi[*crypto.EDDSASignature])) && (forall i int :: {as(result.Sig, *QuorumSignature_EDDSASigs).EDDSASigs.Sigs[i]} 0 <= i && i < len(as(sig, crypto.Multi[*crypto.EDDSASignature])) ==> as(result.Sig, *QuorumSignature_EDDSASigs).EDDSASigs.Sigs[i] != nil && as(result.Sig, *QuorumSignature_EDDSASigs).EDDSASigs.Sigs[i].Signer == as(sig, crypto.Multi[*crypto.EDDSASignature])[i].signer && content(as(result.Sig, *QuorumSignature_EDDSASigs).EDDSASigs.Sigs[i].Sig) == content(as(sig, crypto.Multi[*crypto.EDDSASignature])[i].sig) && len(as(result.Sig, *QuorumSignature_EDDSASigs).EDDSASigs.Sigs[i].Sig) == len(as(sig, crypto.Multi[*crypto.EDDSASignature])[i].sig))
+//@   ensures [absent] sig == nil ==> result.Sig == nil
+//@   loop 0 invariant [len] len(sigs) == rangeindex + 1
+//@   loop 0 invariant [encoded] (forall j int :: {sigs[j]} 0 <= j && j <= rangeindex ==> sigs[j] != nil && allocated(sigs[j]) && sigs[j].Signer == ms[j].signer && sameslice(sigs[j].Sig, ms[j].sig))
+//@   loop 0 invariant [fresh] cap(sigs) > 0 ==> fresh(sigs)
+//@   loop 1 invariant [len] len(sigs) == rangeindex + 1
+//@   loop 1 invariant [encoded] (forall j int :: {sigs[j]} 0 <= j && j <= rangeindex ==> sigs[j] != nil && allocated(sigs[j]) && (len(sigs[j].Sig) == 0 || allocated(sigs[j].Sig)) && sigs[j].Signer == ms[j].signer && content(sigs[j].Sig) == content(ms[j].sig) && len(sigs[j].Sig) == len(ms[j].sig))
+//@   loop 1 invariant [fresh] cap(sigs) > 0 ==> fresh(sigs)
+//@   modifies alloc
+
 //@ func PartialCertFromProto property C10
 //@   requires wireheap()
 //@   modifies alloc
